@@ -183,32 +183,38 @@ class Sc(Sym):
         o2 = Sc.lift(o)
         if o2 is None:
             return None
-        return Sc(f(self.r, o2.r))
+        return type(self)(f(self.r, o2.r)) if type(self) is not Sc and type(o2) in (Sc, type(self)) else Sc(f(self.r, o2.r))
 
     def __add__(self, o):
-        return self._sc(o, lambda a, b: a + b) or Sym._bin(self, "+", o)
+        r_ = self._sc(o, lambda a, b: a + b)
+        return r_ if r_ is not None else Sym._bin(self, "+", o)
 
     __radd__ = __add__
 
     def __sub__(self, o):
-        return self._sc(o, lambda a, b: a - b) or Sym._bin(self, "-", o)
+        r_ = self._sc(o, lambda a, b: a - b)
+        return r_ if r_ is not None else Sym._bin(self, "-", o)
 
     def __rsub__(self, o):
-        return self._sc(o, lambda a, b: b - a) or Sym._bin(self, "-", o, True)
+        r_ = self._sc(o, lambda a, b: b - a)
+        return r_ if r_ is not None else Sym._bin(self, "-", o, True)
 
     def __mul__(self, o):
-        return self._sc(o, lambda a, b: a * b) or Sym._bin(self, "*", o)
+        r_ = self._sc(o, lambda a, b: a * b)
+        return r_ if r_ is not None else Sym._bin(self, "*", o)
 
     __rmul__ = __mul__
 
     def __truediv__(self, o):
-        return self._sc(o, lambda a, b: a / b) or Sym._bin(self, "/", o)
+        r_ = self._sc(o, lambda a, b: a / b)
+        return r_ if r_ is not None else Sym._bin(self, "/", o)
 
     def __rtruediv__(self, o):
-        return self._sc(o, lambda a, b: b / a) or Sym._bin(self, "/", o, True)
+        r_ = self._sc(o, lambda a, b: b / a)
+        return r_ if r_ is not None else Sym._bin(self, "/", o, True)
 
     def __neg__(self):
-        return Sc(-self.r)
+        return type(self)(-self.r)
 
     def __eq__(self, o):
         o2 = Sc.lift(o)
